@@ -25,6 +25,18 @@ def refs (x : Survey) : List Str := (out x).bodyRefs ++ (out x).bindRefs ++ (out
 /-- the leaf assignments of survey `x` -/
 def ents (x : Survey) : List Ent := entries x.defaultLanguage x.lists (flats x)
 
+/-- whenever the model accepts, its result is `out x` (the theorems below are stated about `out x`
+and therefore hold for every accepted survey) -/
+theorem run_ok {x : Survey} {o : Out} (h : run x = .ok o) : o = out x := by
+  simp only [run] at h
+  split at h
+  · cases h
+  · split at h
+    · cases h
+    · split at h
+      · cases h; rfl
+      · cases h
+
 theorem out_translations (x : Survey) :
     (out x).translations = itext x.defaultLanguage (pad (setup (ents x))) := rfl
 
